@@ -173,7 +173,8 @@ MODELS = {
             M("TempStackList", "MCTemp_regress_push.cfg", "witness"), M("TempStackList", "MCTemp_wit_pushretry.cfg", "witness"),
             M("TempStackList", "MCTemp_regress_uninit.cfg", "witness"), M("TempStackList", "MCTemp_regress_detector.cfg", "witness"),
             M("TempStackList", "MCTemp_regress_nifty.cfg", "witness"), M("TempStackList", "MCTemp_regress_cas.cfg", "witness"),
-            M("TempStackList", "MCTemp_wit_adopt.cfg", "witness"), M("TempStackList", "MCTemp_wit_race.cfg", "witness")],
+            M("TempStackList", "MCTemp_wit_adopt.cfg", "witness"), M("TempStackList", "MCTemp_wit_race.cfg", "witness"),
+            ApalacheRun("TempAdoptInd", "CInit", "Init", "IndInv", ["NoShare", "OwnedInUse"])],
     "C10": [M("Propagate", "MCProp.cfg"), M("Propagate", "MCProp_noprop.cfg"), M("Propagate", "MCProp_regress_swap.cfg", "witness"),
             M("Propagate", "MCProp_regress_eq.cfg", "witness"), M("Propagate", "MCProp_wit.cfg", "witness")],
     "C13": [M("Storage", "MCStorage.cfg"), M("Storage", "MCStorage_regress.cfg", "witness"), M("Storage", "MCStorage_wit.cfg", "witness")] + LEAK
